@@ -160,10 +160,30 @@ def _roundtrip(regs, medium):
                 regs[0].write(path, format='fits')
             else:
                 Regions(regs).write(path, format='fits')
+            if medium == 'file_multi':
+                _add_extensions(path)
             out = list(Regions.read(path, format='fits'))
             os.remove(path)
         warns = [str(x.message) for x in w]
     return out, warns
+
+
+def _add_extensions(path):
+    """Rewrite the file as [primary, unrelated table EVENTS, the REGION table as written, an image extension, a second
+    table named REGION (EXTVER 2) with one other circle].  The regions of a file are those of its first REGION
+    extension (the lookup rule of FITS extension names)."""
+    import numpy as np
+    from astropy.io import fits
+    from regions import Regions, CirclePixelRegion, PixCoord
+    with fits.open(path) as hl:
+        ours = [h.copy() for h in hl if h.name == 'REGION']
+    other = Regions([CirclePixelRegion(PixCoord(901.0, 902.0), 77.0)]).serialize(format='fits')
+    h2 = fits.table_to_hdu(other)
+    h2.name = 'REGION'
+    h2.header['EXTVER'] = 2
+    ev = fits.BinTableHDU.from_columns([fits.Column(name='X', format='D', array=np.array([1.0, 2.0]))], name='EVENTS')
+    img = fits.ImageHDU(np.zeros((2, 3)), name='SCI')
+    fits.HDUList([fits.PrimaryHDU(), ev] + ours + [img, h2]).writeto(path, overwrite=True)
 
 
 def check_list(res, names, incp, compp, medium, insert=None):
@@ -354,7 +374,7 @@ def list_cases(tier):
     out = []
     incs = ['absent', 'all_false', 'alt_0_1'] if tier == 'quick' else INC_PATTERNS
     comps = ['absent', 'all', 'partial', 'partial_desc', 'partial_mixed'] if tier == 'quick' else COMP_PATTERNS
-    media = ['memory', 'file'] if tier == 'quick' else ['memory', 'file', 'file_region']
+    media = ['memory', 'file', 'file_multi'] if tier == 'quick' else ['memory', 'file', 'file_region', 'file_multi']
     maxlen = 2 if tier == 'quick' else 3
     lists = []
     for L in range(1, maxlen + 1):
@@ -368,6 +388,8 @@ def list_cases(tier):
             for compp in comps:
                 for m in media:
                     if m == 'file_region' and len(names) != 1:
+                        continue
+                    if m == 'file_multi' and (len(names) in (2, 3) or incp != incs[-1]):
                         continue
                     if m != 'memory' and tier == 'quick' and len(names) == 2 and (incp != 'absent' and compp != 'absent'):
                         continue
